@@ -359,6 +359,75 @@ theorem C15_resp_sync_rearmed (rs : List ListRes) :
 
 example : runSync [.err, .ok] = [.list .err, .rearm, .list .ok, .rearm] := by decide
 
+/-! ### worker: tags are merged, the executor is closed outside the pool mutex -/
+
+theorem Tags.get_set_same (t : Tags) (k v : String) : (t.set k v).get k = some v := by
+  induction t with
+  | nil => simp [Tags.set, Tags.get]
+  | cons p rest ih =>
+    unfold Tags.set
+    by_cases h : (p.1 == k) = true
+    · simp [h, Tags.get]
+    · simp only [h, Bool.false_eq_true, if_false]
+      unfold Tags.get at ih ⊢
+      simp only [List.find?_cons, h]
+      exact ih
+
+theorem Tags.get_set_other (t : Tags) (k k' v : String) (hne : k' ≠ k) : (t.set k v).get k' = t.get k' := by
+  induction t with
+  | nil =>
+    have : (k == k') = false := by simpa using fun e => hne e.symm
+    simp [Tags.set, Tags.get, this]
+  | cons p rest ih =>
+    unfold Tags.set
+    by_cases h : (p.1 == k) = true
+    · have hk : p.1 = k := by simpa using h
+      have h1 : (k == k') = false := by simpa using fun e => hne e.symm
+      have h2 : (p.1 == k') = false := by rw [hk]; exact h1
+      simp [h, Tags.get, List.find?_cons, h1, h2]
+    · simp only [h, Bool.false_eq_true, if_false]
+      unfold Tags.get at ih ⊢
+      simp only [List.find?_cons]
+      cases hp : (p.1 == k') with
+      | true => rfl
+      | false => exact ih
+
+/-- **saveTags keeps every other tag.** Whenever it writes, the set it writes carries the worker's
+instance type and idle behaviour and, unchanged, every other tag the instance had — in particular
+the InstanceSetID tag by which the pool finds its instances again. -/
+theorem C15_resp_saveTags_merges (tags t' : Tags) (kType kIdle itName ib : String) (hk : kType ≠ kIdle)
+    (h : saveTags tags kType kIdle itName ib = some t') :
+    t'.get kType = some itName ∧ t'.get kIdle = some ib ∧
+    ∀ k, k ≠ kType → k ≠ kIdle → t'.get k = tags.get k := by
+  unfold saveTags at h
+  split at h
+  · cases h
+  · simp only [Option.some.injEq] at h
+    subst h
+    refine ⟨?_, Tags.get_set_same _ _ _, ?_⟩
+    · rw [Tags.get_set_other _ _ _ _ hk]; exact Tags.get_set_same _ _ _
+    · intro k h1 h2
+      rw [Tags.get_set_other _ _ _ _ h2, Tags.get_set_other _ _ _ _ h1]
+
+/-- … and it writes nothing only when both are already there. -/
+theorem C15_resp_saveTags_none (tags : Tags) (kType kIdle itName ib : String)
+    (h : saveTags tags kType kIdle itName ib = none) :
+    tags.get kType = some itName ∧ tags.get kIdle = some ib := by
+  unfold saveTags at h
+  split at h
+  · rename_i hc
+    simpa using hc
+  · cases h
+
+example : saveTags [("InstanceSetID", "s"), ("IdleBehavior", "run"), ("InstanceType", "t")] "InstanceType" "IdleBehavior"
+    "t" "drain" = some [("InstanceSetID", "s"), ("IdleBehavior", "drain"), ("InstanceType", "t")] := by decide
+
+/-- **`worker.Close()` closes the executor only after releasing the pool mutex.** -/
+theorem C15_resp_close_outside_lock :
+    ∃ pre post, workerClose = pre ++ .unlock :: post ∧ CloseEv.executorClose ∈ post ∧
+      CloseEv.executorClose ∉ pre ∧ CloseEv.lock ∈ pre :=
+  ⟨[.lock, .abandonRunners], [.executorClose], rfl, by decide, by decide, by decide⟩
+
 /-! ### runner: Kill gives up -/
 
 /-- **Unkillable process past timeoutTERM ⇒ worker set to drain.** The Kill goroutine ends as soon
